@@ -251,6 +251,17 @@ Theorem C13_format_shift_old_refuted : exists bs, database_open legacy bs = UB.
 Proof. exact format_shift_refuted. Qed.
 Print Assumptions C13_format_shift_old_refuted.
 
+(* 20. the '>' that ends the version string (byte 31 of the file) damaged: ADF_Database_Version copies on through
+   the header structure into the caller's version[33]; the repaired code returns the 28 characters of the field *)
+Theorem C13_version_old_refuted :
+  exists bs, on_open legacy bs (fun f r => is_out (database_version legacy f VER_CAP) (OOBW 9)) False.
+Proof. exact version_refuted. Qed.
+Print Assumptions C13_version_old_refuted.
+Example C13_version_repaired :
+  on_open repaired wit_ver (fun f r => database_version repaired f VER_CAP) (Err 0)
+  = Ok [65; 68; 70; 32; 68; 97; 116; 97; 98; 97; 115; 101; 32; 86; 101; 114; 115; 105; 111; 110; 32; 66; 48; 50; 48; 49; 50; 88].
+Proof. exact version_repaired. Qed.
+
 (* 06. "TaiL" -> "XaiL": ADFI_stridx_c scans beyond char disk_node_data[246] *)
 Theorem C13_tagscan_old_refuted :
   exists bs, on_open legacy bs (fun f r => is_out (read_node_header legacy f r) (OOBR 5)) False.
